@@ -32,6 +32,7 @@ type SeqSpec struct {
 	New       func() SeqInst
 	MaxDepth  int // 0 = run to fixpoint
 	MaxStates int
+	janitor   bool // instances own a real janitor goroutine (construction waits for it to register its ticker)
 }
 
 func (sp *SeqSpec) replay(hist []int, check bool) (SeqInst, string, string) {
